@@ -572,6 +572,40 @@ func verifC20(t *testing.T, r *vfh.Rand, out *vfh.Out) {
 // ---------------------------------------------------------------------------------------------
 // BuildTasks
 
+// c20Probe is a task that reads a terminate function once it sees the cancellation.
+type c20Probe struct {
+	term func() bool
+	got  chan bool
+}
+
+func (p *c20Probe) Run(ctx context.Context) error {
+	<-ctx.Done()
+	p.got <- p.term()
+	return nil
+}
+func (p *c20Probe) Ready() <-chan struct{} { c := make(chan struct{}); close(c); return c }
+func (p *c20Probe) String() string         { return "verif probe" }
+
+// c20ServeSees runs srv.Serve with one probe task, delivers sig and reports what term() — a function
+// handed out by srv.BuildTasks BEFORE Serve was called — returned when the probe saw the cancellation.
+func c20ServeSees(srv *Server, term func() bool, sig os.Signal) bool {
+	sigC := make(chan os.Signal, 1)
+	p := &c20Probe{term: term, got: make(chan bool, 1)}
+	done := make(chan error, 1)
+	go func() { done <- srv.Serve(sigC, nil, []Task{p}) }()
+	sigC <- sig
+	var v bool
+	select {
+	case v = <-p.got:
+	case <-time.After(10 * time.Second):
+	}
+	select {
+	case <-done:
+	case <-time.After(10 * time.Second):
+	}
+	return v
+}
+
 func c20BuildOne(out *vfh.Out, kinds []int, debug, watcher bool) {
 	c := new(vfh.Toks).S("bt").N(len(kinds))
 	var cfg config.Config
@@ -643,6 +677,12 @@ func c20BuildOne(out *vfh.Out, kinds []int, debug, watcher bool) {
 				t1 := x.terminate != nil && x.terminate()
 				srv.t.set(syscall.SIGHUP)
 				t2 := x.terminate != nil && !x.terminate()
+				// … also through Serve, in the order main() uses (BuildTasks first, then Serve on the
+				// same Server): what the signal task records must be what this advertiser reads
+				if t1 && t2 {
+					t1 = c20ServeSees(srv, x.terminate, syscall.SIGTERM) && c20ServeSees(srv, x.terminate, syscall.SIGINT)
+					t2 = !c20ServeSees(srv, x.terminate, syscall.SIGHUP)
+				}
 				if t1 && t2 {
 					o.S("t1")
 				} else {
